@@ -3,6 +3,7 @@ package pgdump
 import (
 	"fmt"
 	"regexp"
+	"sort"
 )
 
 // SearchResult represents a match found during search
@@ -50,7 +51,8 @@ func Search(dataDir string, opts *SearchOptions) ([]SearchResult, error) {
 	for _, db := range result.Databases {
 		for _, table := range db.Tables {
 			for rowNum, row := range table.Rows {
-				for colName, value := range row {
+				for _, colName := range rowKeys(table.Columns, row) {
+					value := row[colName]
 					if matchValue(value, re) {
 						match := SearchResult{
 							Database: db.Name,
@@ -96,7 +98,8 @@ func SearchInDump(result *DumpResult, opts *SearchOptions) ([]SearchResult, erro
 	for _, db := range result.Databases {
 		for _, table := range db.Tables {
 			for rowNum, row := range table.Rows {
-				for colName, value := range row {
+				for _, colName := range rowKeys(table.Columns, row) {
+					value := row[colName]
 					if matchValue(value, re) {
 						match := SearchResult{
 							Database: db.Name,
@@ -120,6 +123,29 @@ func SearchInDump(result *DumpResult, opts *SearchOptions) ([]SearchResult, erro
 	}
 
 	return matches, nil
+}
+
+// rowKeys returns the keys of row in a deterministic order: the table's
+// declared columns first (in declaration order, each at most once), then any
+// remaining keys in ascending order. Ranging over the map directly would make
+// the order of the hits, and which hits survive MaxResults, vary between runs.
+func rowKeys(cols []ColumnInfo, row map[string]interface{}) []string {
+	keys := make([]string, 0, len(row))
+	seen := make(map[string]bool, len(row))
+	for _, c := range cols {
+		if _, ok := row[c.Name]; ok && !seen[c.Name] {
+			seen[c.Name] = true
+			keys = append(keys, c.Name)
+		}
+	}
+	var rest []string
+	for k := range row {
+		if !seen[k] {
+			rest = append(rest, k)
+		}
+	}
+	sort.Strings(rest)
+	return append(keys, rest...)
 }
 
 // matchValue checks if a value matches the regex
